@@ -439,6 +439,11 @@ class FakeVCS:
         with open(os.path.join(self.ctl, "fail_match"), "w") as f:
             f.write("\n".join(lines) + "\n")
 
+    def kill_match(self, lines):
+        """invocations that die from SIGKILL (a negative returncode for the caller)"""
+        with open(os.path.join(self.ctl, "kill_match"), "w") as f:
+            f.write("\n".join(lines) + "\n")
+
     def hook_noise(self, nbytes):
         with open(os.path.join(self.ctl, "hook_noise"), "w") as f:
             f.write(str(nbytes))
@@ -448,7 +453,7 @@ class FakeVCS:
             f.write(str(k))
 
     def reset(self):
-        for n in ("fail_match", "fail_nth", "fetched", "hook_noise"):
+        for n in ("fail_match", "kill_match", "fail_nth", "fetched", "hook_noise"):
             try:
                 os.unlink(os.path.join(self.ctl, n))
             except FileNotFoundError:
